@@ -511,10 +511,15 @@ def c15b_check(scn):
     spec, stream = scn["spec"], scn["stream"]
     plain = {k: v for k, v in spec.items() if k != "life"}
     try:
-        a = run_incremental(spec, stream, scn["init"], scn["chunks"])
+        # (the trimmed object's public column is looked at after every append, as a polling user would)
+        a = run_incremental(spec, stream, scn["init"], scn["chunks"], on_step=(lambda ind, i: ind.as_list()) if scn.get("poll") else None)
         b = run_incremental(plain, stream, scn["init"], scn["chunks"])
     except Exception:
         return None
+    if scn.get("poll"):
+        col, own = a.as_list(), [c.indicators.get(a.name) for c in a.candles]
+        if not same(col, own):
+            return {"clause": "as_list-of-retained", "observed": first_diff(col, own), "expected": "as_list() = the readings on the retained candles, in order"}
     sa, sb = snapshot(a.candles), snapshot(b.candles)
     tail = sb[len(sb) - len(sa):] if len(sa) <= len(sb) else None
     if tail is None or [x[0] for x in sa] != [x[0] for x in tail]:
@@ -550,7 +555,7 @@ def c15b_case(rng, idx, params):
         stream = [((t0 + i * step) if i < half else (t0 + (half - 1) * step + (i - half + 1) * life),) + tuple(c[1:])
                   for i, c in enumerate(stream)]
     spec = dict(spec, life=life)
-    scn = {"spec": spec, "stream": stream, "init": 0, "chunks": [1] * n}
+    scn = {"spec": spec, "stream": stream, "init": 0, "chunks": [1] * n, "poll": rng.random() < 0.4}
     bad = c15b_check(scn)
     viol = None
     if bad:
@@ -577,7 +582,7 @@ def c15b_window_case(rng, idx, params):
         chunks.append(c)
         left -= c
     spec = dict(spec, life=life)
-    scn = {"spec": spec, "stream": stream, "init": 0, "chunks": chunks}
+    scn = {"spec": spec, "stream": stream, "init": 0, "chunks": chunks, "poll": rng.random() < 0.5}
     bad = c15b_check(scn)
     viol = None
     if bad:
